@@ -166,6 +166,7 @@ type workerStats struct {
 	Infra      []string       `json:"infra"`
 	Steps      int64          `json:"steps"`
 	SimNanos   int64          `json:"sim_nanos"`
+	SimSecs    float64        `json:"sim_secs"`
 	Decisions  int64          `json:"decisions"`
 	Contended  int64          `json:"contended"`
 	TimerFires int64          `json:"timer_fires"`
@@ -392,6 +393,7 @@ func main() {
 		total.Runs += st.Runs
 		total.Steps += st.Steps
 		total.SimNanos += st.SimNanos
+		total.SimSecs += st.SimSecs
 		total.Decisions += st.Decisions
 		total.Contended += st.Contended
 		total.TimerFires += st.TimerFires
@@ -527,7 +529,7 @@ func main() {
 	writeEvidence(id, cfg, *tier, seed, &total, len(sched), len(nontriv), wall, buildS, searchS, len(violationLines), knownLines, shrinkNotes, buildDir, nw, fp)
 
 	fmt.Printf("check %s tier=%s seed=%d: %d runs, %d steps, %.1f s simulated, %d distinct schedules (%d non-trivial), %d workers, %.1fs wall (build %.1fs)\n",
-		id, *tier, seed, total.Runs, total.Steps, float64(total.SimNanos)/1e9, len(sched), len(nontriv), nw, wall, buildS)
+		id, *tier, seed, total.Runs, total.Steps, total.SimSecs, len(sched), len(nontriv), nw, wall, buildS)
 	for _, l := range knownLines {
 		fmt.Println(l)
 	}
@@ -640,7 +642,7 @@ func writeEvidence(id string, cfg propCfg, tier string, seed int64, t *workerSta
 			"distinct_schedules":            nsched,
 			"runs_per_hour":                 perHour,
 			"seeds_per_hour":                perHour,
-			"simulated_time_s":              float64(t.SimNanos) / 1e9,
+			"simulated_time_s":              t.SimSecs,
 			"scheduler_steps":               t.Steps,
 			"decisions_recorded":            t.Decisions,
 			"contended_decisions":           t.Contended,
